@@ -203,7 +203,10 @@ type admCase struct {
 	// PartialMeta: Metadata.Full = false, and the admin is built on a Client the application has used before
 	// (it looked up a topic that does not exist): refreshes only cover the topics that client tracks
 	PartialMeta bool
-	Calls    []*admCall
+	// Elect: after every controller move the next metadata answer reports no controller (the election is
+	// still running when the admin refreshes), the one after that the new controller
+	Elect bool
+	Calls []*admCall
 }
 
 // ---------------------------------------------------------------- generators
@@ -472,6 +475,15 @@ func admCore(tier string) []admCase {
 		for _, shared := range []bool{false, true} {
 			out = append(out, admCase{Name: fmt.Sprintf("ctl-partial/%s/R2/shared=%v", op, shared), Op: op, RetryMax: 2, Version: admDefaultVersion, Brokers: 3, Shared: shared, PartialMeta: true,
 				Calls: admControllerCalls(op, 2, false, false)})
+		}
+	}
+	// the refresh after NOT_CONTROLLER is answered in the middle of the election (controller -1)
+	for _, op := range admControllerOps {
+		for _, R := range []int{1, 2} {
+			for _, shared := range []bool{false, true} {
+				out = append(out, admCase{Name: fmt.Sprintf("ctl-elect/%s/R%d/shared=%v", op, R, shared), Op: op, RetryMax: R, Version: admDefaultVersion, Brokers: 3, Shared: shared, Elect: true,
+					Calls: admControllerCalls(op, R, false, false)})
+			}
 		}
 	}
 	// several goroutines call one ClusterAdmin while the controller moves under them
@@ -771,6 +783,9 @@ func (r *admRun) onAdmin(ctx *sarama.VSimAdminCtx) sarama.VSimAdminAction {
 		st := call.Steps[i]
 		if st.Move && r.cs.Brokers > 1 {
 			act.MoveTo = r.nextBroker(ctx.Controller)
+			if r.cs.Elect {
+				act.Electing = 1
+			}
 		} else if st.Move {
 			// a single broker cannot hand the controller role over: it answers NOT_CONTROLLER itself
 			act.Kind, act.Code = sarama.VAError, sarama.ErrNotController
